@@ -85,7 +85,14 @@ JWN(n)       == JWOp(SpecN(n), n)
 JWSz(n, utd) == JWOp(SpecSz(n, utd), n)
 JWS2(n, utd) == LET sz == JWSz(n, utd) IN
                 OpAdd(OpMul(JWOp(SpecSminus(n, utd), n), JWOp(SpecSplus(n, utd), n), n), OpAdd(sz, OpMul(sz, sz, n)))
+\* Hard-core boson encoding (pUCCD): qubit p = pair occupation of spatial orbital p (both spin orbitals or none).
+\* On that paired space N = 2 SUM_p n_p = SUM_p (1 - Z_p), and Sz = 0, S^2 = 0 identically (lemma-checked from first
+\* principles on every paired determinant in C08Lemmas).
+HCBN(n) == FoldLeft(LAMBDA acc, q : OpAdd(acc, OpSub(OpIdentity(n), OpWord(ZWord(q, n)))), OpZero, [q \in 1..n |-> q - 1])
 SymOp(which, n, utd) == CASE which = "N" -> JWN(n) [] which = "Sz" -> JWSz(n, utd) [] which = "S^2" -> JWS2(n, utd)
+                          [] which = "hcbN" -> HCBN(n) [] which \in {"hcbSz", "hcbS^2"} -> OpZero
+\* the determinant of a set of doubly occupied spatial orbitals (alternating spin-orbital order)
+PairDet(P) == {2 * p : p \in P} \cup {2 * p + 1 : p \in P}
 
 \* determinant <-> vector over JW basis states
 DetVec(D, n) == Basis(DetIndex(D, n), n)
